@@ -2,6 +2,7 @@ mod api;
 mod deviate;
 mod faults;
 mod apigen;
+mod phys;
 mod backend;
 mod handle;
 mod locks;
@@ -84,6 +85,35 @@ fn main() {
                 } else {
                     apigen::campaign(arg_u64(&args, "--seed", 1), arg_u64(&args, "--count", 100), arg_u64(&args, "--max-ops", 40), &cfg, ops, imp, arg(&args, "--snapdir"))
                 };
+                println!("STAT histories {}", o.histories);
+                println!("STAT ops {}", o.ops);
+                println!("STAT distinct {}", o.distinct.len());
+                for (k, n) in &o.hist {
+                    println!("HIST {} {}", k, n);
+                }
+                o.violations
+            };
+            for v in &violations {
+                println!("ORACLE {}", v);
+            }
+        }
+        "phys" => {
+            let ops = arg(&args, "--ops").unwrap();
+            let imp = arg(&args, "--impl").unwrap();
+            let violations = if let Some(r) = arg(&args, "--replay") {
+                if r != ops {
+                    std::fs::copy(r, ops).ok();
+                }
+                phys::replay(ops, imp)
+            } else {
+                let cfg = phys::PhysCfg {
+                    setlen_heavy: args.iter().any(|a| a == "--setlen-heavy"),
+                    cycles: !args.iter().any(|a| a == "--no-cycles"),
+                    handles: !args.iter().any(|a| a == "--no-handles"),
+                    reopen_pct: arg_u64(&args, "--reopen-pct", 4),
+                    big: args.iter().any(|a| a == "--big"),
+                };
+                let o = phys::campaign(arg_u64(&args, "--seed", 1), arg_u64(&args, "--count", 100), arg_u64(&args, "--max-ops", 40), &cfg, ops, imp, arg(&args, "--snapdir"));
                 println!("STAT histories {}", o.histories);
                 println!("STAT ops {}", o.ops);
                 println!("STAT distinct {}", o.distinct.len());
